@@ -102,6 +102,9 @@ func (in *Interp) doCall(g *Goroutine, fr *Frame, instr ssa.Instruction, cc *ssa
 // invoke calls fv with args. For SSA functions a frame is pushed (irPushed).
 func (in *Interp) invoke(g *Goroutine, fv *FuncV, args []Value, c *callCtx, dest ssa.Value) (Value, int) {
 	if fv.Native != nil {
+		if in.mergeDepth > 0 {
+			panic(mergeFail{"engine-native function (side effects outside the write log) in merged region"})
+		}
 		return fv.Native(in, args), irDone
 	}
 	if fv.Builtin != "" {
@@ -293,6 +296,12 @@ func (in *Interp) startCallIn(ng *Goroutine, d deferred) {
 func (in *Interp) callBuiltin(g *Goroutine, c *callCtx) (Value, int) {
 	name := strings.TrimPrefix(c.name, "builtin:")
 	args := c.args
+	if in.mergeDepth > 0 {
+		switch name {
+		case "close", "delete", "clear", "recover", "panic":
+			panic(mergeFail{"builtin " + name + " in merged region"})
+		}
+	}
 	switch name {
 	case "len":
 		switch x := args[0].(type) {
